@@ -41,8 +41,10 @@ def purge(root):
     importlib.invalidate_caches()
 
 
-def run_client(src, names):
+def run_client(src, names, package=None):
     ns = {"__name__": "client_mod"}
+    if package:
+        ns = {"__name__": package + ".client_mod", "__package__": package}
     out = {"exc": None}
     buf = io.StringIO()
     try:
@@ -92,6 +94,23 @@ def main():
             except BaseException as e:  # noqa
                 res["namespaces"][m] = {"__error__": type(e).__name__ + ": " + str(e)[:120]}
         for c in job.get("clients", []):
+            if c.get("fresh"):
+                # import-time effects matter: every execution starts without the tree's modules and with the
+                # original sys.path; only stdout and the exception are compared (objects are re-created)
+                path0 = list(sys.path)
+                outs = []
+                for src in (c["before"], c["after"]):
+                    purge(base or d)
+                    _, o = run_client(src, [], c.get("package"))
+                    sys.path[:] = path0
+                    outs.append(o)
+                diff = []
+                if outs[0]["stdout"] != outs[1]["stdout"]:
+                    diff.append("<stdout>")
+                if (outs[0]["exc"] or "").split(":")[0] != (outs[1]["exc"] or "").split(":")[0]:
+                    diff.append("<exception>")
+                res["clients"].append({"id": c["id"], "before": outs[0], "after": outs[1], "diff": diff})
+                continue
             ns0, o0 = run_client(c["before"], c["names"])
             v0 = probe(ns0, c["names"])
             r = {"id": c["id"], "before": {"exc": o0["exc"], "vals": {n: (tag(v) if v is not MISSING else MISSING)
